@@ -136,6 +136,39 @@ Definition fcase_model_ok (c : fcase) : bool :=
 Definition fcase_spec_ok (c : fcase) : bool :=
   list_eqb N.eqb (map f_id (filter (filter_spec (fc_opts c)) (fc_all c))) (fc_kept c).
 
+(* ------------------------------------------------------------------ depth and severity filters *)
+(* declarative side, evaluated the other way round: walk DOWN from the root along child edges *)
+Definition children (edges : list edge) (n : N) : list N :=
+  map snd (filter (fun e => N.eqb (fst e) n && negb (N.eqb (fst e) (snd e))) edges).
+Fixpoint down (k : nat) (edges : list edge) (n : N) : list N :=
+  match k with
+  | O => [n]
+  | S k' => let l := down k' edges n in add_new l (flat_map (children edges) l)
+  end.
+(* "some affected node is within MaxDepth of the root" - or is not below the root at all, in which
+   case the implementation reads distance 0 *)
+Definition depth_spec (maxd : Z) (numnodes : nat) (edges : list edge) (nodes : list N) : bool :=
+  (maxd <=? 0)%Z ||
+  existsb (fun n => memN n (down (Z.to_nat maxd) edges 0) || negb (memN n (down numnodes edges 0))) nodes.
+Definition severity_spec (thr : Z) (top aff : list score) : bool :=
+  let sel := match top with [] => aff | _ => top end in
+  forallb (fun s => match s with None => true | Some _ => false end) sel ||
+  existsb (fun s => match s with Some x => (thr <=? x)%Z | None => false end) sel.
+
+Record gobs := { go_sev_ok : bool; go_depth_ok : bool; go_matched : bool; go_dists : list Z }.
+Record gcase := { gc_opts : ropts; gc_th : thresholds; gc_numnodes : nat; gc_edges : list edge;
+                  gc_vulns : list (gvuln * gobs) }.
+Definition gcase_model_ok (c : gcase) : bool :=
+  forallb (fun go : gvuln * gobs => let (g, ob) := go in
+     Bool.eqb (match_severity (th_sev (gc_th c)) (g_top g) (g_aff g)) (go_sev_ok ob) &&
+     Bool.eqb (match_depth (th_depth (gc_th c)) (gc_numnodes c) (gc_edges c) (g_nodes g)) (go_depth_ok ob) &&
+     list_eqb Z.eqb (map (root_dist (gc_numnodes c) (gc_edges c)) (g_nodes g)) (go_dists ob) &&
+     Bool.eqb (match_vuln_full (gc_opts c) (gc_th c) (gc_numnodes c) (gc_edges c) g) (go_matched ob)) (gc_vulns c).
+Definition gcase_spec_ok (c : gcase) : bool :=
+  forallb (fun go : gvuln * gobs => let (g, ob) := go in
+     Bool.eqb (severity_spec (th_sev (gc_th c)) (g_top g) (g_aff g)) (go_sev_ok ob) &&
+     Bool.eqb (depth_spec (th_depth (gc_th c)) (gc_numnodes c) (gc_edges c) (g_nodes g)) (go_depth_ok ob)) (gc_vulns c).
+
 (* ------------------------------------------------------------------ the two-run case *)
 Record cand := { cd_reqs : list req; cd_all : list fvuln; cd_obs : patch }.
 Record tcase := {
